@@ -16,7 +16,7 @@ import os
 import random
 import shutil
 
-from .. import cbi, core, runner, scen
+from .. import cbi, core, runner, scen, trace_preproc
 from . import C04, C06
 
 
@@ -63,6 +63,7 @@ def expected_setmap(m, exp, plats, excluded):
 
 def replay_chunk(args):
     scens, seed, workdir, cli_every = args
+    trace_every = 5
     fails = []
     stats = {"evals": 0, "nontrivial": 0, "skipped": 0}
     for si, sc in enumerate(scens):
@@ -86,12 +87,16 @@ def replay_chunk(args):
                 os.symlink(m.paths[rnd.choice(mem)], os.path.join(m.root, "zz_link_in.h"))
             if outs:
                 os.symlink(m.paths[outs[0]], os.path.join(m.root, "src", "zz_link_out.h"))
-            for pats, excluded in exclude_lists(m, sc, rnd):
+            for xi, (pats, excluded) in enumerate(exclude_lists(m, sc, rnd)):
                 stats["evals"] += 1
                 # does the excluded set provide macros/includes to others?  (non-trivial case)
                 if any(it["k"] in ("define", "undef", "include") for f in excluded for it in sc["files"][f]["items"]):
                     stats["nontrivial"] += 1
-                st, cb, logs, err = cbi.run_find(m.root, conf, excludes=pats)
+                if trace_every and si % trace_every == 0 and xi == 0:
+                    st, cb, logs, err, trs = cbi.run_find_traced(m.root, conf, base, f"c10:{si}", excludes=pats)
+                    stats.setdefault("traces", []).extend(trs)
+                else:
+                    st, cb, logs, err = cbi.run_find(m.root, conf, excludes=pats)
                 if err is not None:
                     fails.append(dict(layer="G", tags=sorted(tags | {"exception"}), symptom=f"exception:{err[0]}",
                                       detail=f"exclude={pats}: {err[1]}", case=sc))
@@ -239,14 +244,17 @@ def run(ctx):
     ctx.cov["scenarios"] = len(cases)
     ctx.sample({"files": {k: v["items"] for k, v in cases[0]["files"].items()}, "ents": cases[0]["ents"]})
     work = ctx.scratch()
+    loaded = []
     jobs = [(c, ctx.seed, work, 8 if q else 4) for c in runner.chunks(cases, runner.NCPU * 2)]
     for lst in runner.pmap(_jobs, jobs, chunk=1):
         for fails, stats in lst:
             ctx.cov["evaluations"] += stats["evals"]
             ctx.cov["distinct_nontrivial"] += stats["nontrivial"]
             ctx.cov["skipped"] = ctx.cov.get("skipped", 0) + stats["skipped"]
+            loaded.extend(stats.get("traces", []))
             for f in fails:
                 ctx.fail(f["layer"], f["tags"], f["symptom"], f["detail"], f["case"])
+    trace_preproc.validate(ctx, [], tag="C10", loaded=loaded)
 
 
 def replay(ctx, path):
